@@ -310,6 +310,14 @@ class Interp:
         path = path or Path()
         if env:
             path.env.update(env)
+        if self.func is not None and not env:
+            # optional collaborators (`sleep=None` ... `sleep or trio.sleep`) nothing in the package injects are None
+            from . import util as _util2
+
+            for p_ in _util2.optional_collaborator_params(self.program, self.func):
+                path.env.setdefault(("sym", p_), ("const", None))
+        if env:
+            pass
         elif self.func is not None:
             # a PRIVATE method generalised with defaulted parameters that no call site of the package supplies
             # (`_reap(self, threshold=0)`) behaves, for its callers, as with those defaults
@@ -511,6 +519,10 @@ class Interp:
             alias = self._init_alias(self.func.cls, attr)
             if alias is not None:
                 return alias
+            from . import util as _util3
+
+            if _util3.optional_collaborator_field(self.program, self.func.cls, attr):
+                return ("const", None)
         # a field / property of a record built right here:  plugin = _TagPlugin(entry, factory, settings); plugin.tag
         if base[0] == "call" and base[1][0] == "glob" and base[1][1] in self.program.classes and not any(a[0] == "star" for a in base[2]) and all(k for k, _v in base[3]):
             rc = self.program.classes[base[1][1]]
@@ -1182,6 +1194,9 @@ class Interp:
         if f == ("glob", "ext:builtins.str") and len(args) == 1 and not kwargs and args[0][0] not in ("star", "const"):
             if self.type_of(args[0], path, _ann=False) is str:
                 return [("value", path, args[0])]
+        # typing.cast(T, x) is x
+        if f in (("glob", "ext:typing.cast"), ("glob", "ext:typing_extensions.cast")) and len(args) == 2 and not kwargs:
+            return [("value", path, args[1])]
         # dict({...}) of a display is a fresh mapping with the same items
         if f == ("glob", "ext:builtins.dict") and len(args) == 1 and not kwargs and args[0][0] == "dict":
             return [("value", path, args[0])]
